@@ -11,9 +11,16 @@ EXPLANATION = (
     "documented source fields, confidence included) - a necessary condition of the round trip, not its arithmetic. "
     "R19.4: the ltwh entry points feed every named geometry input of the constructor they call from the documented "
     "parameters. R19.5: inside the library the cached polygon never outlives the geometry it was computed from "
-    "(struct literals carry no cache unless the whole geometry is copied unchanged; &mut self geometry writes reset it).")
-NOT_DECIDED = ["ltwh <-> universal round trip (numeric)", "polygon geometry", "angle normalisation",
-               "reflexivity for NaN coordinates"]
+    "(struct literals carry no cache unless the whole geometry is copied unchanged; &mut self geometry writes reset it). "
+    "R19.8: the four polygon vertices, read as polynomials in xc, yc, height, aspect, cos(angle), sin(angle), are exactly "
+    "the corners (+-height*aspect/2, +-height/2) rotated by +angle about (xc, yc) and listed in boundary order; area() "
+    "and get_radius() are the area and the centre-to-corner distance of that rectangle. R19.9: the composition of the "
+    "two conversions ltwh -> universal -> ltwh, as rational functions of left, top, width, height, confidence, is the "
+    "identity. Both are decided by a rational-function normal form of the MIR expression (no execution); where the code "
+    "is not straight-line arithmetic the formula is recorded as not evaluated and only R19.2 / R19.4 apply.")
+NOT_DECIDED = ["float rounding of the ltwh <-> universal round trip and of the polygon vertices (the real-valued "
+               "formulas are decided: R19.8 / R19.9)", "angle normalisation as a numeric statement (R19.7 decides that "
+               "whole turns are removed)", "reflexivity for NaN coordinates"]
 ASSUMPTIONS = ["rustc nightly front end + MIR construction", "f32::abs is the IEEE absolute value"]
 
 REQUIRED = {
@@ -287,8 +294,23 @@ def angle_rule(ctx):
     ctx.floor(R, 2, 2)
 
 
+def formula_rules(ctx):
+    """R19.8 / R19.9 exact formulas (rules/geomlib.py, rational-function normal form): evaluated only where the code is
+    straight-line arithmetic; other shapes are noted and left to R19.2 / R19.4"""
+    import geomlib
+    ctx.rule('R19.8', 'polygon = rectangle (+-h*a/2, +-h/2) rotated by +angle about (xc, yc) in boundary order; '
+                      'area() = width*height; get_radius() = centre-to-corner distance (polynomial identities)')
+    n = geomlib.polygon_rule(ctx, 'R19.8')
+    n += geomlib.measures_rule(ctx, 'R19.8')
+    ctx.evaluated('R19.8', n, 3)
+    ctx.rule('R19.9', 'ltwh -> universal -> ltwh is the identity on left, top, width, height, confidence '
+                      '(composition of the two conversions as rational functions)')
+    ctx.evaluated('R19.9', geomlib.roundtrip_rule(ctx, 'R19.9'), 6)
+
+
 def run(ctx):
     angle_rule(ctx)
+    formula_rules(ctx)
     _ownership(ctx)
     _wiring(ctx)
     conversions(ctx)
